@@ -457,6 +457,22 @@ func runC14(c c14Case) kit.Result {
 				}
 			}
 		}
+		if c.Kind == "matching-allof" || c.Kind == "matching-anyof" {
+			// the list forms of the same look-up (FindMatching / FindMatchingAnyOf) name the same entities
+			s := c14BuildStores()
+			var listed []string
+			if c.Kind == "matching-allof" {
+				listed = s.as.FindMatching(tx, s.rolesIdx, c.Values)
+			} else {
+				listed = s.as.FindMatchingAnyOf(tx, s.rolesIdx, c.Values)
+			}
+			sort.Strings(listed)
+			want := append([]string(nil), expect...)
+			sort.Strings(want)
+			if fmt.Sprintf("%q", listed) != fmt.Sprintf("%q", want) && !(len(listed) == 0 && len(want) == 0) {
+				return fmt.Errorf("%s: the list form of the look-up for %q returned %q", label, c.Values, listed)
+			}
+		}
 		// 1. full enumeration from a fresh cursor
 		cur := open(tx)
 		if cur == nil {
